@@ -32,11 +32,14 @@ def order_plan(s):
     sel_keys = [item_key(i) for i in s.get("selects", [])]
     keys = []
     for it, d in obs:
+        if it[0] == "t" and it[1][0] == "vali" and 1 <= int(it[1][1]) <= len(sel_keys):
+            keys.append((int(it[1][1]) - 1, d == "desc"))        # positional key
+            continue
         k = item_key(it)
         if k is None or k not in sel_keys:
             return ("bag", None)
         keys.append((sel_keys.index(k), d == "desc"))
-    if all(k is not None for k in sel_keys) and set(i for i, _ in keys) == set(range(len(sel_keys))):
+    if set(i for i, _ in keys) == set(range(len(sel_keys))):
         return ("exact", keys)
     return ("sorted", keys)
 
@@ -276,4 +279,6 @@ def classify(spec, order, j):
         return ["C04", "join", "%s/%s/%s" % (j0[0], j0[1][0], j0[2][0]), what]
     if any(src[0] != "t" for q in stmts for src in q.get("from", [])):
         return ["C04", "from", "subquery-source", what]
+    if sp.has_window(spec):
+        return ["C04", "select", "window-function", what]
     return ["C04", "select", first_construct(spec["selects"][0]) if spec.get("selects") else "none", what]
